@@ -247,6 +247,7 @@ def run_case(ctx, P, stream, idx):
                     text = f.read()
                 try:
                     tree = ast.parse(text)
+                    compile(text, p, "exec")  # (what the grammar accepts the compiler may still refuse: a repeated keyword)
                 except SyntaxError as e:
                     dev("generated-not-python", "%s does not parse: %r" % (os.path.basename(p), e), file=p, text=text[:1500])
                     continue
